@@ -4,6 +4,7 @@
 SPECIFICATION Spec
 CONSTANTS
   MaxLen = 4
+  Starts <- StartsNone
   Alphabet <- AlphaBase
   Files <- FilesQuick
   FilterLists <- FiltersQuick
